@@ -244,10 +244,14 @@ class Body:
             for bi, si, s in self.stmts():
                 if s["k"] in ("Assign", "SetDiscriminant"):
                     p = s["lhs"]
+                    if p["p"] and p["p"][0] == "*":
+                        continue  # a store THROUGH the pointer is not a definition of the pointer
                     d.setdefault(p["l"], []).append((bi, si, s, not p["p"]))
             for bi, ti, t in self.terms():
                 if t["k"] == "Call":
                     p = t["dest"]
+                    if p["p"] and p["p"][0] == "*":
+                        continue
                     d.setdefault(p["l"], []).append((bi, ti, t, not p["p"]))
             self._defs = d
         return self._defs
